@@ -5,6 +5,12 @@
 //	    (matchers, line filters, label filters before any parser), with query contexts. The SQL is NOT
 //	    produced here: the cases go through harness/cmd/logqlsql (real parser + real planner), which
 //	    adds the SQL text and the parsed script as terms of the model.
+//	logqlsem --mode regroups --seed S --n N --out regroups.jsonl
+//	    the `| regexp` stage: generated expressions with flat, nested and mixed named / plain capture groups go
+//	    through the planner's own expression parser (ParserPlanner.parseRe: the stripped expression it sends and
+//	    the label names it pairs with the groups, the same values the planner model takes as its oracle and the
+//	    text correspondence ties to the SQL); the reference is Go's regexp: group i = i-th opening parenthesis
+//	    (SubexpNames), values = the groups of the LAST match (x[length(x)] over extractAllGroupsHorizontal).
 //	logqlsem --mode enrich --seed S --cases withsql.jsonl --out enriched.jsonl
 //	    for every case: the implementation's SQL parsed back into the object tree of coq/model/Sql.v
 //	    (harness/sqlparse, validated on the model side by render(tree) = text), small databases built
@@ -27,6 +33,7 @@ import (
 	"strings"
 
 	"github.com/metrico/qryn/reader/logql/logql_parser"
+	"github.com/metrico/qryn/reader/logql/logql_transpiler_v2/clickhouse_planner"
 	"github.com/metrico/qryn/reader/logql/logql_transpiler_v2/shared"
 	sql "github.com/metrico/qryn/reader/utils/sql_select"
 	"verif/harness/coqx"
@@ -191,7 +198,87 @@ func genDrop(r *rand.Rand, class *[]string) string {
 
 // queries with json parameters and drop: mostly in the order the theorem covers (filters ; json+ ; drop* ;
 // filters*), sometimes in any order (where the planners are known to deviate)
+// a label filter, then line filter(s), then a stage that REWRITES the label the filter read (drop L / json L=other path):
+// the filter must be decided on the value the label had where the filter is written (the select is renewed in front of the
+// relabelling stage whatever kind of filter precedes it)
+func genRelabelAfterFilters(r *rand.Rand) (string, []string) {
+	class := []string{"relabel-after-filters"}
+	q := genMatchers(r)
+	l := pick(r, labelNames)
+	v := pick(r, []string{"b", "api", "error", "200", "1.5", "it"})
+	lf := func() string {
+		switch r.Intn(6) {
+		case 0:
+			return " | " + l + "!=" + quoted(r, v)
+		case 1:
+			return " | " + l + "=~" + quoted(r, v)
+		case 2:
+			return " | " + l + " >= 1"
+		default:
+			return " | " + l + "=" + quoted(r, v)
+		}
+	}
+	line := func() string {
+		w := pick(r, []string{"b", "x", "it", "api", "msg"})
+		switch r.Intn(4) {
+		case 0:
+			return " != " + quoted(r, "zz"+w)
+		case 1:
+			return " |~ " + quoted(r, w)
+		default:
+			return " |= " + quoted(r, w)
+		}
+	}
+	variant := r.Intn(3)
+	switch variant {
+	case 0: // json sets L, the filter reads it, line filters, L is rewritten
+		if r.Intn(3) == 0 {
+			q += genFilter(r, &class)
+		}
+		q += " | json " + l + "=" + quoted(r, pick(r, jsonPaths))
+		class = append(class, "json")
+	case 1: // the filter reads a stream label behind a drop of another label
+		o := pick(r, labelNames)
+		for o == l {
+			o = pick(r, labelNames)
+		}
+		q += " | drop " + o
+		class = append(class, "drop")
+	default: // the filter reads a stream label behind a json stage that sets another label
+		o := pick(r, labelNames)
+		for o == l {
+			o = pick(r, labelNames)
+		}
+		q += " | json " + o + "=" + quoted(r, pick(r, jsonPaths))
+		class = append(class, "json")
+	}
+	q += lf()
+	class = append(class, "labelfilter")
+	for i := 1 + r.Intn(2); i > 0; i-- {
+		q += line()
+		class = append(class, "linefilter")
+	}
+	switch r.Intn(3) {
+	case 0:
+		q += " | drop " + l
+		class = append(class, "drop")
+	case 1:
+		q += " | drop " + l + "=" + quoted(r, v)
+		class = append(class, "drop")
+	default:
+		q += " | json " + l + "=" + quoted(r, pick(r, jsonPaths))
+		class = append(class, "json")
+	}
+	if r.Intn(3) == 0 {
+		q += genFilter(r, &class)
+	}
+	return q, class
+}
+
 func genParserQuery(r *rand.Rand) (string, []string) {
+	if r.Intn(4) == 0 {
+		return genRelabelAfterFilters(r)
+	}
 	var class []string
 	q := genMatchers(r)
 	if r.Intn(4) == 0 {
@@ -519,17 +606,22 @@ func genDB(r *rand.Rand, qi *qinfo, c Ctx) DB {
 		var docs []string
 		for k := 0; k < 6; k++ {
 			doc := map[string]interface{}{"msg": pick(r, plain)}
+			seenLabel := map[string]bool{}
 			for _, jp := range qi.jparams {
 				if r.Intn(10) < 2 {
 					continue // the path is missing
 				}
+				// a later parameter of a label already extracted: prefer a value that decides the comparisons on the
+				// label the other way (a filter written between the two stages must see the first value)
+				flip := seenLabel[jp.label] && r.Intn(4) != 0
+				seenLabel[jp.label] = true
 				cands := valsFor(jp.label)
 				best, bestN := cands[r.Intn(len(cands))], -1
 				for try := 0; try < 16; try++ {
 					w := cands[r.Intn(len(cands))]
 					n := 0
 					for _, cn := range qi.cons {
-						if cn.name == jp.label && cn.holds(w) {
+						if cn.name == jp.label && cn.holds(w) != flip {
 							n++
 						}
 					}
@@ -916,6 +1008,123 @@ func enrich(c *Case, seed int64, ndb int) {
 var mode = flag.String("mode", "gen", "gen | enrich")
 var ndb = flag.Int("dbs", 6, "databases per case (enrich)")
 
+// ---------------------------------------------------------------- regexp stage: capture groups and label names
+
+type ReCase struct {
+	ID        int               `json:"id"`
+	Class     string            `json:"class"`
+	Query     string            `json:"query"`
+	Re        string            `json:"re"`
+	Stripped  string            `json:"stripped"`
+	ImplNames []string          `json:"impl_names"`
+	RefNames  []string          `json:"ref_names"`
+	Line      string            `json:"line"`
+	Want      map[string]string `json:"want"`
+	Got       map[string]string `json:"got"`
+	Ok        bool              `json:"ok"`
+	Why       string            `json:"why,omitempty"`
+}
+
+var reAtoms = []string{`\w+`, `\d+`, `[a-z]+`, `[A-Z]+`, `=`, ` `, `x`, `\.`, `\S+`, `:`}
+var reLines = []string{"a=1", "b=a x=2", "client 10.0.0.2 POST /", "k1=v1 k2=v2", "abc 123", "GET /x 200", "a:b c:d", "x.y=3", ""}
+
+// genRe builds an expression; nested says whether a NAMED group contains another capture group
+func genRe(r *rand.Rand, depth int, names *[]string, nested *bool, insideNamed bool) string {
+	n := 1 + r.Intn(3)
+	res := ""
+	for i := 0; i < n; i++ {
+		switch k := r.Intn(6); {
+		case k < 3 || depth >= 3:
+			res += pick(r, reAtoms)
+		case k < 5:
+			name := fmt.Sprintf("%s%d", pick(r, []string{"k", "v", "kv", "ip", "verb", "n"}), len(*names))
+			*names = append(*names, name)
+			if insideNamed {
+				*nested = true
+			}
+			res += "(?P<" + name + ">" + genRe(r, depth+1, names, nested, true) + ")"
+		default:
+			if insideNamed {
+				*nested = true
+			}
+			res += "(" + genRe(r, depth+1, names, nested, insideNamed) + ")"
+		}
+	}
+	return res
+}
+
+func lastGroups(re *regexp.Regexp, line string) []string {
+	all := re.FindAllStringSubmatch(line, -1)
+	vals := make([]string, re.NumSubexp())
+	if len(all) > 0 {
+		copy(vals, all[len(all)-1][1:])
+	}
+	return vals
+}
+func pairUp(names, vals []string) map[string]string {
+	res := map[string]string{}
+	for i := range names {
+		if i < len(vals) && names[i] != "" && vals[i] != "" {
+			res[names[i]] = vals[i]
+		}
+	}
+	return res
+}
+
+func regroupCase(r *rand.Rand, id int) ReCase {
+	var names []string
+	nested := false
+	re := genRe(r, 0, &names, &nested, false)
+	if len(names) == 0 {
+		re += "(?P<k0>" + pick(r, reAtoms) + ")"
+	}
+	c := ReCase{ID: id, Re: re, Class: "flat", Line: pick(r, reLines)}
+	if nested {
+		c.Class = "nested-in-named"
+	}
+	c.Query = `{a="b"} | regexp ` + strconv.Quote(re)
+	orig, err := regexp.Compile(re)
+	if err != nil {
+		c.Ok, c.Why = true, "not an RE2 expression: "+err.Error()
+		c.Class = "invalid"
+		return c
+	}
+	c.RefNames = orig.SubexpNames()[1:]
+	stripped, implNames, err := clickhouse_planner.VerifParseRe(re)
+	if err != nil {
+		c.Why = "the planner's expression parser rejects a valid expression: " + err.Error()
+		return c
+	}
+	c.Stripped, c.ImplNames = stripped, implNames
+	sre, err := regexp.Compile(stripped)
+	if err != nil {
+		c.Why = "the expression the planner sends is not valid: " + err.Error()
+		return c
+	}
+	if sre.NumSubexp() != orig.NumSubexp() {
+		c.Why = fmt.Sprintf("the expression the planner sends has %d groups, the query's %d", sre.NumSubexp(), orig.NumSubexp())
+		return c
+	}
+	// a line the expression matches, when one of the stock lines does
+	for try := 0; try < len(reLines); try++ {
+		if orig.MatchString(c.Line) {
+			break
+		}
+		c.Line = reLines[(try+id)%len(reLines)]
+	}
+	c.Want = pairUp(c.RefNames, lastGroups(orig, c.Line))
+	c.Got = pairUp(c.ImplNames, lastGroups(sre, c.Line))
+	wb, _ := json.Marshal(c.Want)
+	gb, _ := json.Marshal(c.Got)
+	nb, _ := json.Marshal(c.RefNames)
+	ib, _ := json.Marshal(c.ImplNames)
+	c.Ok = string(wb) == string(gb) && string(nb) == string(ib)
+	if !c.Ok {
+		c.Why = "label names are not paired with the capture groups in opening-parenthesis order"
+	}
+	return c
+}
+
 func main() {
 	f := hx.ParseFlags()
 	out := hx.OpenOut(f.Out)
@@ -934,6 +1143,11 @@ func main() {
 				Limit: []int64{0, 0, 1, 2, 3, 100}[r.Intn(6)], Asc: r.Intn(2) == 0, Cluster: false,
 				Type: []uint8{0, 1, 1, 2}[r.Intn(4)], Finalize: true, StepMs: 1000,
 			}})
+		}
+	case "regroups":
+		r := hx.Rand(f.Seed)
+		for i := 0; i < f.N; i++ {
+			out.Put(regroupCase(r, i))
 		}
 	case "enrich":
 		hx.ReadLines(f.Cases, func(b []byte) {
